@@ -12,10 +12,10 @@ WELL = [('STRT', 'M', '1670.0', 'START DEPTH'), ('STOP', 'M', '1669.75', 'STOP D
         ('NULL', '', '-999.25', 'NULL VALUE'), ('COMP', '', 'ANY OIL COMPANY INC.', 'COMPANY'), ('TIME', '', '13:45:10', 'LOG TIME'),
         ('WELL', '', 'A.10-16 #2', 'WELL'), ('RUN', '', '2', 'RUN NUMBER'), ('CASE', '', 'yes', 'CASED'), ('EGL', 'M', '-12', 'GROUND LEVEL'),
         ('TOFF', 'S', '+30', 'TIME OFFSET')]
-CURVES = [('DEPT', 'M', '1  DEPTH'), ('GR', 'GAPI', '2  GAMMA RAY'), ('NPHI', 'V/V', '3  NEUTRON POROSITY'), ('DT', 'US/M', '4  SONIC')]
+CURVES = [('DEPT', 'M', '1  DEPTH'), ('GR', 'GAPI', '2  GAMMA RAY'), ('NPHI', 'V/V', '3  NEUTRON POROSITY'), ('ILD', 'OHM.M', '4  DEEP INDUCTION')]      # units may contain dots
 # numeric curves that merely share the name of the LAS date / time curves (those are TIME.HHMMSS and DATE.D)
 CURVES_ALT = [('DEPT', 'M', '1  DEPTH'), ('TIME', 'S', '2  ELAPSED TIME'), ('DATE', 'YYMMDD', '3  DATE STAMP'), ('ETIM', 'S', '4  TIME SINCE START')]
-PARAMS = [('BHT', 'DEGC', '35.5', 'BOTTOM HOLE TEMPERATURE'), ('MUD', '', 'GEL CHEM', 'MUD TYPE'), ('TDEP', 'M', '-5', 'TIE-IN DEPTH')]
+PARAMS = [('BHT', 'DEGC', '35.5', 'BOTTOM HOLE TEMPERATURE'), ('RMF', 'OHM.M', '0.216', 'MUD FILTRATE RESISTIVITY'), ('TDX', '.1IN', '6570', 'DEPTH INDEX'), ('MUD', '', 'GEL CHEM', 'MUD TYPE'), ('TDEP', 'M', '-5', 'TIE-IN DEPTH')]
 
 
 def _same(got, want):
@@ -88,8 +88,8 @@ def _check(content, lay):
 
 def las_layouts(vers20: bool, ncurves: int, nframes: int, params: bool, wrap: bool, lead: int, sep: int, comments: bool, blanks: bool, per_line: int, colon_pad: int, c0: int, c1: int, c2: int, cind: int = 0) -> bool:
     """
-    pre: 1 <= ncurves <= 4 and 1 <= nframes <= 3
-    pre: 0 <= lead <= 2 and 1 <= sep <= 3 and 1 <= per_line <= 3 and 0 <= colon_pad <= 2
+    pre: 1 <= ncurves <= 4 and nframes in (1, 3)
+    pre: lead in (0, 2) and sep in (1, 3) and 1 <= per_line <= 3 and colon_pad in (0, 2)
     pre: 0 <= c0 <= 7 and c1 in (0, 4) and c2 in (1, 7)
     pre: 0 <= cind <= 2 and (comments or cind == 0)
     pre: wrap or per_line == 1
@@ -128,6 +128,7 @@ def las_layouts_q(vers20: bool, ncurves: int, nframes: int, wrap: bool, lead: in
 
 
 ALPHA = 'Az0_'
+UALPHA = 'Az0.'        # units may contain dots (OHM.M, .1IN)
 
 
 def sect_line_chars(m0: int, m1: int, u0: int, u1: int, vkind: int, spaces: int) -> bool:
@@ -141,7 +142,9 @@ def sect_line_chars(m0: int, m1: int, u0: int, u1: int, vkind: int, spaces: int)
     m0, m1, u0, u1, vkind, spaces = mark.pick(m0, 0, 3), mark.pick(m1, -1, 3), mark.pick(u0, -1, 3), mark.pick(u1, -1, 3), mark.pick(vkind, 0, 11), mark.pick(spaces, 0, 2)
     with mark.untraced():
         mnem = ALPHA[m0] + (ALPHA[m1] if m1 >= 0 else '')
-        unit = (ALPHA[u0] if u0 >= 0 else '') + (ALPHA[u1] if u0 >= 0 and u1 >= 0 else '')
+        unit = (UALPHA[u0] if u0 >= 0 else '') + (UALPHA[u1] if u0 >= 0 and u1 >= 0 else '')
+        if unit in ('.', '..'):
+            return True         # not a unit
         value = ['', '5', '2.5', 'YES', 'no', 'abc def', '12:30', 'a.b', '-999.25', '1e3', '-999', '+30'][vkind]
         desc = 'the description'
         line = '%s%s.%s %s%s:%s%s' % (' ' * spaces, mnem, unit, value, ' ' * spaces, ' ' * spaces, desc)
